@@ -74,7 +74,9 @@ int main(int argc, char **argv) {
     int need_len = (int) A.geti("need-cycle-len", 0);      // only graphs that contain a simple cycle with at least this many edges
     int max_m = (int) A.geti("max-m", 62), min_m = (int) A.geti("min-m", 0);
     uint64_t total_units = vg::num_graphs(n), seed = (uint64_t) A.geti("seed", 0);
-    auto unit_graph = [&](uint64_t u) { return vg::graph_from_mask(n, (u + seed) % total_units); };
+    int orient_mode = (int) A.geti("orient", 0);
+    auto unit_graph0 = [&](uint64_t u) { return vg::graph_from_mask(n, (u + seed) % total_units); };
+    auto unit_graph = [&](uint64_t u) { vg::EdgeList g = unit_graph0(u); vg::orient(g, orient_mode); return g; };
     auto describe = [&](uint64_t u, uint64_t sub, uint64_t var) { vg::EdgeList el = unit_graph(u); std::vector<double> w; vg::weighting(alpha, el.m(), sub, w); return std::make_pair(std::string(vv::variant_name((int) var)), vg::case_string(el, w, std::string("variant=") + vv::variant_name((int) var))); };
     auto work = [&](uint64_t u, uint64_t start_sub) {
         vg::EdgeList el = unit_graph(u);
@@ -85,7 +87,7 @@ int main(int argc, char **argv) {
         if (need_len) { bool lc = false; for (uint64_t c : cyc) if (__builtin_popcountll(c) >= need_len) lc = true; if (!lc) return; }
         uint64_t nw = vg::num_weightings(alpha, el.m());
         std::vector<double> w; vg::weighting(alpha, el.m(), 0, w); vb::Built<W> b(el, w);
-        for (uint64_t s = start_sub; s < nw; ++s) { vg::weighting(alpha, el.m(), s, w); R.count(C_INPUTS); R.count(C_NONTRIV); run_case(R, cfg, el, w, cyc, dim, u, s, b); }
+        for (uint64_t s = start_sub; s < nw; ++s) { if (R.expired()) break; vg::weighting(alpha, el.m(), s, w); R.count(C_INPUTS); R.count(C_NONTRIV); run_case(R, cfg, el, w, cyc, dim, u, s, b); }
     };
     double t0 = vr::now_s();
     auto res = R.run(total_units, work, describe);
